@@ -808,7 +808,7 @@ func checkC02(c *Ctx) {
 		r.Extra["corpus_shapes_skipped_not_compiling"] = typeErr + genFail
 		r.count("TV/programs", programs)
 	}
-	r.assume("the schema tree construction in schema.schema() from these inputs is NOT decided (value-level)")
+	r.assume("of the schema tree construction in schema.schema() three structural necessary conditions are decided (LA-footer: a group's repetition comes from its own index, child counts count direct children once, groups are identified by their whole path); that the listing it produces from these inputs is the tree of every struct shape is otherwise value-level and NOT decided")
 }
 
 // laOffset (C02): chunk offsets are running sums. A necessary condition that is visible in code shape: every
@@ -836,6 +836,9 @@ func laOffset(c *Ctx, rule string) {
 			accs := 0
 			seen := map[ssa.Value]bool{}
 			terms := map[string]bool{}
+			phiAt := map[*ssa.BasicBlock]bool{}    // loop headers with a loop-carried accumulator on the spine
+			cellLoops := false                     // the accumulator lives in a memory cell (its stores are judged one by one)
+			sites := []*ssa.BasicBlock{st.Block()} // the store, and the call sites the spine was followed through
 			var spine func(v ssa.Value, depth int)
 			inLoop := func(b *ssa.BasicBlock) bool {
 				for _, s := range reachableBlocks(b) {
@@ -877,6 +880,7 @@ func laOffset(c *Ctx, rule string) {
 					}
 					if carried {
 						accs++
+						phiAt[blk] = true
 					}
 				case *ssa.Parameter:
 					fn := x.Parent()
@@ -893,6 +897,7 @@ func laOffset(c *Ctx, rule string) {
 						for _, b := range g.Blocks {
 							for _, ins := range b.Instrs {
 								if call, ok := ins.(ssa.CallInstruction); ok && call.Common().StaticCallee() == fn {
+									sites = append(sites, b)
 									spine(callArgs(call.Common())[idx], depth+1)
 								}
 							}
@@ -954,6 +959,7 @@ func laOffset(c *Ctx, rule string) {
 							}
 							if inLoop(b) {
 								accs++
+								cellLoops = true
 								self := func(y ssa.Value) bool {
 									ld, ok := y.(*ssa.UnOp)
 									return ok && ld.Op == token.MUL && sameCell(ld.X)
@@ -992,6 +998,32 @@ func laOffset(c *Ctx, rule string) {
 				}
 			}
 			spine(st.Val, 0)
+			// the sum runs through EVERY loop around the store (row groups and, inside them, columns): a loop around it
+			// without a carried accumulator restarts the position in each of its iterations
+			if !cellLoops {
+				for _, sb := range sites {
+					for _, h := range sb.Parent().Blocks {
+						if !(h == sb || h.Dominates(sb)) {
+							continue
+						}
+						isHeader := false
+						for _, p := range h.Preds {
+							if h.Dominates(p) {
+								isHeader = true
+							}
+						}
+						reachesBack := false
+						for _, x := range reachableBlocks(sb) {
+							if x == h {
+								reachesBack = true
+							}
+						}
+						if isHeader && reachesBack && !phiAt[h] && len(phiAt) > 0 {
+							bad = append(bad, fmt.Sprintf("the running offset is not carried through the loop at %s around the place it is stored: it restarts in every iteration (from the second row group on, offsets point into the first)", u.Pos(lastInstr(h).Pos())))
+						}
+					}
+				}
+			}
 			// what the running sum is advanced by: the chunk's size in the file
 			var wrong []string
 			// (a row group's total_byte_size and earlier offsets are themselves sums of it)
